@@ -371,7 +371,7 @@ func c12Class(c *c12Case) string {
 		}
 		return "3+"
 	}
-	return fmt.Sprintf("pool=%d conns=%s pre=%s post=%s half=%d never=%d long=%d slow=%d abort=%d quiet=%v race=%s phase=%s sig=%s cap=%v", s.Pool, b(len(s.Conns)), b(pre), b(post), half, never, long, slow, abort, s.QuietMs > 0, s.Race, s.Phase, s.Signal, s.QueueCap > 0)
+	return fmt.Sprintf("pool=%d conns=%s pre=%s post=%s half=%d never=%d long=%d slow=%d abort=%d quiet=%v race=%s ht=%v phase=%s sig=%s cap=%v", s.Pool, b(len(s.Conns)), b(pre), b(post), half, never, long, slow, abort, s.QuietMs > 0, s.Race, s.HandleTimeoutMs > 0, s.Phase, s.Signal, s.QueueCap > 0)
 }
 
 func c12Gen(tier string, rng *rand.Rand) []c12Case {
@@ -504,6 +504,15 @@ func c12Gen(tier string, rng *rand.Rand) []c12Case {
 	// C12_answered_before_close_refuted, first witness): known finding shutdown/race/read-then-count/request-lost
 	add(c12Scn{Pool: 0, QuietMs: 2300, Signal: "DIRECT", Race: "read-then-count", Conns: []c12ConnScn{{Pre: []int{0}}}})
 	add(c12Scn{Pool: 2, QuietMs: 2300, Signal: "DIRECT", Race: "read-then-count", Conns: []c12ConnScn{{Pre: []int{0}}}})
+	// the same window on a connection used a moment ago, held for one poller round: the idle threshold protects it
+	// (not the known finding: a request lost here is reported under its own signature)
+	add(c12Scn{Pool: 0, Signal: "DIRECT", Race: "read-then-count-fresh", Conns: []c12ConnScn{{Pre: []int{0}}}})
+	add(c12Scn{Pool: 2, Signal: "DIRECT", Race: "read-then-count-fresh", Conns: []c12ConnScn{{Pre: []int{50}}}})
+	// a handle timeout (bounds a handler's RUN time) and a pooled backlog whose queue time + run time exceeds it while
+	// every handler stays below it: every request read is still answered before its connection is closed
+	add(c12Scn{Pool: 1, HandleTimeoutMs: 1000, GraceMs: 9000, Conns: []c12ConnScn{{Pre: []int{700, 700, 700, 700}, Pipelined: true}}})
+	add(c12Scn{Pool: 2, HandleTimeoutMs: 1500, GraceMs: 9000, Signal: "DIRECT", Conns: []c12ConnScn{{Pre: []int{600, 600, 600}, Pipelined: true}, {Pre: []int{600, 600, 600}}, {}}})
+	add(c12Scn{Pool: 0, HandleTimeoutMs: 800, Conns: []c12ConnScn{{Pre: []int{300, 300, 300}, Pipelined: true}, {Pre: []int{0}}}})
 	add(quiet(0, 2500, 0, "TERM"))
 	add(quiet(4, 3500, 60000, "DIRECT"))
 	add(quiet(1, 3000, 0, "INT"))
@@ -529,6 +538,20 @@ func c12Gen(tier string, rng *rand.Rand) []c12Case {
 			s.SmallBuf = true
 			s.Conns = []c12ConnScn{{Pre: []int{durs[rng.Intn(len(durs))]}, Bulk: 4 << 20, ReadDelayMs: []int{300, 1200}[rng.Intn(2)]}}
 			add(s)
+			continue
+		}
+		if rng.Intn(14) == 0 {
+			// handle timeout with a pooled backlog longer than it (handlers below it)
+			ht := 800 + 100*rng.Intn(8)
+			var cs []c12ConnScn
+			for k := 1 + rng.Intn(2); k > 0; k-- {
+				var pre []int
+				for j := 3 + rng.Intn(3); j > 0; j-- {
+					pre = append(pre, ht/2+50*rng.Intn(4))
+				}
+				cs = append(cs, c12ConnScn{Pre: pre, Pipelined: rng.Intn(2) == 0})
+			}
+			add(c12Scn{Pool: 1 + rng.Intn(2), HandleTimeoutMs: ht, GraceMs: 12000, Signal: s.Signal, Conns: cs})
 			continue
 		}
 		if rng.Intn(14) == 0 {
